@@ -722,10 +722,7 @@ def _resolve_dynamic_tags(
                 continue
 
             try:
-                ctx = expr_parser.TransactionContext.from_transaction(transaction)
-                tree = expr_parser.parse_expression(expr)
-                evaluator = expr_parser.TransactionEvaluator(ctx)
-                value = evaluator.evaluate(tree)
+                value = expr_parser.evaluate_transaction(expr, transaction)
                 if value:  # Only add non-empty values
                     stripped = str(value).strip()
                     if stripped:  # Skip whitespace-only values
